@@ -22,6 +22,7 @@ import (
 	"strconv"
 	"strings"
 	"sync"
+	"time"
 
 	qlog "github.com/reugn/go-quartz/logger"
 )
@@ -219,6 +220,8 @@ func loggerRun(args []string) int {
 	lgSlogText(r)
 	lgNoOp(r)
 	lgSharedStd(r, rng)
+	lgSlogEndedContext(r, thresholds)
+	lgSimpleWriteErrors(r, rng)
 	lgConcurrentSimple(r, *goroutines, *lines, int(qlog.LevelTrace))
 	lgConcurrentSimple(r, *goroutines, *lines, int(qlog.LevelInfo))
 	lgConcurrentSlog(r, *goroutines, *lines, int(qlog.LevelDebug))
@@ -524,6 +527,330 @@ func lgSharedStd(r *lgRun, rng *rand.Rand) {
 		}
 		runSeq(fmt.Sprintf("random history %d", s+1), thr, steps)
 	}
+}
+
+// ---------------------------------------------------------------------------------------------- SlogLogger whose context has ended
+
+// lgSlogEndedContext: NewSlogLogger takes a context (the examples hand it the context that is also given to Scheduler.Start), and
+// the scheduler logs through that logger while and after that context is cancelled ("Exit the execution loop", "Closing the
+// scheduler", errors while draining). The property makes emission a function of level and threshold ONLY: "emit a record if and only
+// if its level is at or above the configured threshold". For every handler threshold and every way the context can be over
+// (cancelled / deadline reached, after or before the logger was built) one record of every level is logged while the context is live
+// (where it is) and again after it has ended; each must reach the handler iff level >= threshold, with its level, message and
+// arguments. The capturing handler decides by level alone.
+func lgSlogEndedContext(r *lgRun, thresholds []int) {
+	type mode struct {
+		name string
+		mk   func() (ctx context.Context, end func(), cancel context.CancelFunc)
+	}
+	modes := []mode{
+		{"was cancelled after the logger was built", func() (context.Context, func(), context.CancelFunc) {
+			c, k := context.WithCancel(context.Background())
+			return c, k, k
+		}},
+		{"reached its deadline after the logger was built", func() (context.Context, func(), context.CancelFunc) {
+			c, k := context.WithTimeout(context.Background(), 2*time.Millisecond)
+			return c, func() {
+				select {
+				case <-c.Done():
+				case <-time.After(10 * time.Second):
+					k()
+				}
+			}, k
+		}},
+		{"had been cancelled before the logger was built", func() (context.Context, func(), context.CancelFunc) {
+			c, k := context.WithCancel(context.Background())
+			k()
+			return c, nil, k
+		}},
+		{"was past its deadline before the logger was built", func() (context.Context, func(), context.CancelFunc) {
+			c, k := context.WithDeadline(context.Background(), time.Now().Add(-time.Hour))
+			return c, nil, k
+		}},
+		{"is the child of a context cancelled with a cause after the logger was built", func() (context.Context, func(), context.CancelFunc) {
+			p, pk := context.WithCancelCause(context.Background())
+			c, k := context.WithCancel(p)
+			return c, func() { pk(errors.New("scheduler stopped")) }, func() { k(); pk(nil) }
+		}},
+	}
+	one := func(h *lgHandler, l qlog.Logger, thr int, lv lgLevel, when, modeName string, ctx context.Context) {
+		h.mu.Lock()
+		before := len(h.recs)
+		h.asked = nil
+		h.mu.Unlock()
+		msg := "record logged " + when
+		args := []string{"level", lv.name, "odd"}
+		lv.call(l, msg, args[0], args[1], args[2])
+		h.mu.Lock()
+		recs := append([]lgRecord(nil), h.recs[before:]...)
+		h.mu.Unlock()
+		op := fmt.Sprintf("logger slog %d %s %s %s %s %s", thr, lv.name, hexArg(msg), hexArg(args[0]), hexArg(args[1]), hexArg(args[2]))
+		ans := "-"
+		if len(recs) > 0 {
+			var as []string
+			for _, a := range recs[0].attrs {
+				as = append(as, hexArg(a.Key)+"="+hexArg(a.Value.String()))
+			}
+			attrs := "-"
+			if len(as) > 0 {
+				attrs = strings.Join(as, ",")
+			}
+			ans = fmt.Sprintf("%d %s %s", int(recs[0].level), hexArg(recs[0].msg), attrs)
+		}
+		r.rec(op, ans)
+		wantEmit := lv.value >= thr
+		r.count("slog_context", when+":"+map[bool]string{true: "emitted", false: "silent"}[wantEmit])
+		what := fmt.Sprintf("SlogLogger built with a context that %s, handler threshold %d: %s(%q, %q) called %s (ctx.Err() = %v):",
+			modeName, thr, strings.ToUpper(lv.name[:1])+lv.name[1:], msg, args, when, ctx.Err())
+		if (len(recs) == 1) != wantEmit || len(recs) > 1 {
+			r.flag("%s %d record(s) reached the handler; a record is emitted iff its level (%d) is at or above the threshold — whether the logger's context is live or over", what, len(recs), lv.value)
+			return
+		}
+		if !wantEmit {
+			return
+		}
+		rec := recs[0]
+		var flat []string
+		for _, a := range rec.attrs {
+			if a.Key == "!BADKEY" && len(flat) == len(args)-1 {
+				flat = append(flat, a.Value.String())
+			} else {
+				flat = append(flat, a.Key, a.Value.String())
+			}
+		}
+		if int(rec.level) != lv.value || rec.msg != msg || strings.Join(flat, "\x00") != strings.Join(args, "\x00") {
+			r.flag("%s the record has level %d message %q attributes %q", what, int(rec.level), rec.msg, flat)
+		}
+	}
+	for _, thr := range thresholds {
+		for _, m := range modes {
+			ctx, end, cancel := m.mk()
+			h := &lgHandler{threshold: slog.Level(thr)}
+			l := qlog.NewSlogLogger(ctx, slog.New(h))
+			if end != nil {
+				if ctx.Err() == nil { // (a 2 ms deadline may already have passed on a loaded machine: then there is no "before")
+					for _, lv := range lgLevels {
+						if ctx.Err() == nil {
+							one(h, l, thr, lv, "while the context was live", m.name, context.Background())
+						}
+					}
+				}
+				end()
+			}
+			if ctx.Err() == nil {
+				r.notes = append(r.notes, "slog context phase: the context did not end ("+m.name+")")
+				cancel()
+				continue
+			}
+			for _, lv := range lgLevels {
+				one(h, l, thr, lv, "after the context had ended", m.name, ctx)
+			}
+			cancel()
+		}
+	}
+	// the same through the standard text handler (which does not look at the context either): the shutdown records of the examples
+	for _, thr := range []int{-8, -4, 0, 4, 8, 12} {
+		var buf bytes.Buffer
+		ctx, cancel := context.WithCancel(context.Background())
+		l := qlog.NewSlogLogger(ctx, slog.New(slog.NewTextHandler(&buf, &slog.HandlerOptions{Level: slog.Level(thr)})))
+		for pass, when := range []string{"while the context was live", "after the context had been cancelled"} {
+			if pass == 1 {
+				cancel()
+			}
+			for _, lv := range lgLevels {
+				buf.Reset()
+				lv.call(l, "Exit the execution loop", "k", "v")
+				got := buf.String()
+				r.judged++
+				r.count("slog_context_text", when)
+				if (got != "") != (lv.value >= thr) || (got != "" && (!strings.Contains(got, `msg="Exit the execution loop" k=v`) || strings.Count(got, "\n") != 1)) {
+					r.flag("SlogLogger(TextHandler level %d) built with a cancellable context, %s(\"Exit the execution loop\", k, v) %s: wrote %q; a record is written iff its level (%d) is at or above the threshold",
+						thr, lv.name, when, got, lv.value)
+				}
+			}
+		}
+		cancel()
+	}
+}
+
+// ---------------------------------------------------------------------------------------------- SimpleLogger whose writer fails now and then
+
+// lgFlakyWriter: an io.Writer (a pipe with back-pressure, a full disk that gets space again, a file being rotated) whose Write fails
+// for the calls whose index (0-based) is in fail and works otherwise. It remembers every call.
+type lgFlakyWriter struct {
+	fail   map[int]bool
+	short  bool // a failing call reports that half of the bytes were taken (and stores nothing)
+	calls  []string
+	failed []bool
+	buf    bytes.Buffer
+}
+
+func (w *lgFlakyWriter) Write(p []byte) (int, error) {
+	i := len(w.calls)
+	w.calls = append(w.calls, string(p))
+	if w.fail[i] {
+		w.failed = append(w.failed, true)
+		if w.short {
+			return len(p) / 2, errors.New("short write: no space left on device")
+		}
+		return 0, errors.New("write: resource temporarily unavailable")
+	}
+	w.failed = append(w.failed, false)
+	return w.buf.Write(p)
+}
+
+// lgSimpleWriteErrors: the threshold test of the property has no memory: "emit a record if and only if its level is at or above the
+// configured threshold … the label of the level it was logged at" holds for every record, also for those logged AFTER the sink returned
+// an error for an earlier one. One SimpleLogger over a log.Logger whose writer fails for some Write calls: every call at or above the
+// threshold must hand the writer exactly its own line (own label, message, arguments) in one Write — it cannot know beforehand whether
+// the writer will take it —, every call below must not touch the writer, and whatever the writer accepted is in its buffer.
+func lgSimpleWriteErrors(r *lgRun, rng *rand.Rand) {
+	levelConst := []qlog.Level{qlog.LevelTrace, qlog.LevelDebug, qlog.LevelInfo, qlog.LevelWarn, qlog.LevelError}
+	runHist := func(name string, thr int, fail map[int]bool, short bool, levels []int, swapAt int) {
+		w := &lgFlakyWriter{fail: fail, short: short}
+		std := log.New(w, "", 0)
+		l := qlog.NewSimpleLogger(std, qlog.Level(thr))
+		var hist []string
+		wantBuf := ""
+		var w2 *bytes.Buffer
+		for k, li := range levels {
+			if k == swapAt { // the owner of the log.Logger installs a new destination (log rotation)
+				w2 = &bytes.Buffer{}
+				std.SetOutput(w2)
+				hist = append(hist, "owner.SetOutput(new buffer)")
+			}
+			lv := lgLevels[li]
+			msg := fmt.Sprintf("record %d logged at %s", k+1, lv.name)
+			nCalls, n2 := len(w.calls), 0
+			if w2 != nil {
+				n2 = w2.Len()
+			}
+			lv.call(l, msg, "k", k+1)
+			wantEmit := int(levelConst[li]) >= thr
+			want := lv.label + "msg=" + msg + ", k=" + strconv.Itoa(k+1) + "\n"
+			call := strings.ToUpper(lv.name[:1]) + lv.name[1:]
+			var attempts []string
+			outcome := "written"
+			if w2 != nil {
+				if s := w2.String()[n2:]; s != "" {
+					attempts = []string{s}
+				}
+			} else {
+				attempts = w.calls[nCalls:]
+				if len(attempts) > 0 && w.failed[nCalls] {
+					outcome = "refused by the writer"
+				}
+			}
+			if len(attempts) == 0 {
+				outcome = "nothing handed to the writer"
+			}
+			if !wantEmit {
+				outcome = "below the threshold"
+			}
+			hist = append(hist, fmt.Sprintf("%s [%s]", call, outcome))
+			r.judged++
+			r.count("simple_write_errors", map[bool]string{true: "at or above the threshold", false: "below the threshold"}[wantEmit]+", "+
+				map[bool]string{true: "after an earlier write error", false: "no write error so far"}[func() bool {
+					for _, f := range w.failed[:nCalls] {
+						if f {
+							return true
+						}
+					}
+					return false
+				}()])
+			bad := ""
+			switch {
+			case !wantEmit && len(attempts) > 0:
+				bad = fmt.Sprintf("handed %q to the writer although level %d is below the threshold", attempts, int(levelConst[li]))
+			case wantEmit && len(attempts) == 0:
+				bad = fmt.Sprintf("handed NOTHING to the writer, want %q: the record's level (%d) is at or above the threshold", want, int(levelConst[li]))
+			case wantEmit && (len(attempts) != 1 || attempts[0] != want):
+				bad = fmt.Sprintf("handed %q to the writer, want exactly %q", attempts, want)
+			}
+			if bad != "" {
+				r.flag("SimpleLogger(threshold %d) over a log.Logger whose writer fails for some calls (%s; Write calls that fail: %v%s), calls so far: %s — the last call %s (%q, k, %d) %s "+
+					"(a record is emitted iff its level is at or above the threshold, also after an earlier record could not be written)",
+					thr, name, lgSortedKeys(fail), map[bool]string{true: ", reporting a short write", false: ""}[short], strings.Join(hist, "; "), call, msg, k+1, bad)
+				return
+			}
+			if wantEmit && outcome == "written" && w2 == nil {
+				wantBuf += want
+			}
+			if wantEmit && outcome == "written" { // a plain single-record case for the model too
+				r.rec(fmt.Sprintf("logger simple %d %s %s %s %s", thr, lv.name, hexArg(msg), hexArg("k"), hexArg(strconv.Itoa(k+1))), hexOf(want))
+			} else if !wantEmit {
+				r.rec(fmt.Sprintf("logger simple %d %s %s %s %s", thr, lv.name, hexArg(msg), hexArg("k"), hexArg(strconv.Itoa(k+1))), "-")
+			}
+		}
+		if got := w.buf.String(); got != wantBuf {
+			r.flag("SimpleLogger(threshold %d), writer failing for the calls %v (%s): the writer accepted %q, want %q", thr, lgSortedKeys(fail), name, got, wantBuf)
+		}
+	}
+	never := -1
+	// one failure, then the writer works again: the very next records, of every level
+	for _, thr := range []int{-8, -4, 0, 4, 8, 12} {
+		for first := 0; first < 5; first++ {
+			if lgLevels[first].value < thr {
+				continue
+			}
+			for _, short := range []bool{false, true} {
+				runHist("the first record is refused, the writer works afterwards", thr, map[int]bool{0: true}, short, []int{first, 0, 1, 2, 3, 4, first}, never)
+			}
+		}
+	}
+	// k failures in a row
+	for _, k := range []int{1, 2, 3, 5, 8} {
+		fail := map[int]bool{}
+		for i := 0; i < k; i++ {
+			fail[i+1] = true
+		}
+		levels := []int{4}
+		for i := 0; i < k+6; i++ {
+			levels = append(levels, []int{2, 4, 3, 1, 0}[i%5])
+		}
+		runHist(fmt.Sprintf("the first Write succeeds, the next %d fail, then the writer works again", k), -8, fail, false, levels, never)
+		runHist(fmt.Sprintf("the first Write succeeds, the next %d fail, then the writer works again", k), 0, fail, k%2 == 0, levels, never)
+	}
+	// every third write fails, for ever
+	every3 := map[int]bool{}
+	for i := 2; i < 40; i += 3 {
+		every3[i] = true
+	}
+	runHist("every third Write fails", -4, every3, false, []int{2, 3, 4, 1, 0, 2, 2, 4, 4, 3, 1, 2, 3, 4, 0, 1, 2, 3, 4}, never)
+	// a write fails, then the owner installs a new destination (rotation): the logger writes to it
+	runHist("a Write fails, then the owner of the log.Logger installs a new destination", 0, map[int]bool{1: true}, false, []int{2, 4, 2, 3, 4, 1, 2}, 3)
+	runHist("the only destination fails for ever until it is replaced", -8, map[int]bool{0: true, 1: true, 2: true}, false, []int{0, 1, 2, 3, 4, 0, 2}, 3)
+	// seeded random histories
+	for s := 0; s < 60; s++ {
+		thr := []int{-8, -4, 0, 4, 8, 12, -9, 5}[rng.Intn(8)]
+		n := 4 + rng.Intn(24)
+		fail := map[int]bool{}
+		for i, k := 0, 1+rng.Intn(4); i < k; i++ {
+			fail[rng.Intn(n)] = true
+		}
+		levels := make([]int, n)
+		for i := range levels {
+			levels[i] = rng.Intn(5)
+		}
+		swap := never
+		if rng.Intn(5) == 0 {
+			swap = 1 + rng.Intn(n-1)
+		}
+		runHist(fmt.Sprintf("random history %d", s+1), thr, fail, rng.Intn(3) == 0, levels, swap)
+	}
+}
+
+func lgSortedKeys(m map[int]bool) []int {
+	var ks []int
+	for k := range m {
+		ks = append(ks, k+1)
+	}
+	for i := 1; i < len(ks); i++ {
+		for j := i; j > 0 && ks[j-1] > ks[j]; j-- {
+			ks[j-1], ks[j] = ks[j], ks[j-1]
+		}
+	}
+	return ks
 }
 
 // ---------------------------------------------------------------------------------------------- concurrency
